@@ -672,7 +672,23 @@ def c07_r1(ctx, f, layouts=None, degrees=None):
         tests.append((b, bt, c, elems[0]))
     xor_blocks = [b["id"] for b in fn.blocks if not b["cleanup"] and any(
         st["k"] == "assign" and st["rv"]["k"] == "bin" and st["rv"]["op"] == "BitXor" for st in b["stmts"])]
+    multiway = []
     if not tests:
+        # a `match` on the coefficient (switch on the element itself) is a test too, in a form whose skip set is not computed here
+        for b in fn.blocks:
+            t_ = b["term"]
+            if b["cleanup"] or t_["k"] != "switch" or not fn.in_loop(b["id"]):
+                continue
+            try:
+                c_ = fn.canon(t_["op"], (b["id"], len(b["stmts"])))
+            except Exception:  # noqa: BLE001
+                continue
+            if any(is_elem(e) for e in _sub(c_)):
+                multiway.append(b["id"])
+    if not tests and multiway:
+        ctx.abstain(rid, "the dividend coefficient is tested by a multi-way match: skip set not computed here (C07.R3 evaluates blocks with "
+                         "zero coefficients)", where_fn(fn))
+    elif not tests:
         ctx.check(rid, False, fn.path + "/zero-skip", where_fn(fn), fn.path, "zero test on the dividend element",
                   "no test of the dividend coefficient against zero before the log lookup (log 0 is undefined)")
     elif len(tests) != 1 or len(xor_blocks) != 1:
